@@ -4,11 +4,11 @@ from evalutil import *
 
 ID = "C04"
 LEVEL = "proof"
-MODULES = ["H3Proofs.Props.C04", "H3Proofs.Props.C04Children", "H3Proofs.Props.C04Valid"]
+MODULES = ["H3Proofs.Props.C04", "H3Proofs.Props.C04Children", "H3Proofs.Props.C04Valid", "H3Proofs.Props.C04Center", "H3Proofs.Props.C04Order"]
 THEOREMS = "auto"
 ASSUMPTIONS = ["hand-written model of cellToParent/cellToChildrenSize/cellToCenterChild/iterInitParent/"
                "iterStepChild tied to the code by the correspondence check (exact list equality, order included)"]
-NOT_PROVED = ["centre coincidence in radians (float) is exercised by the evaluator only", "strictly increasing index order of the children list (lexicographic digit order = numeric order) is checked by the evaluator, not yet a theorem", "the loop-faithful iterator model (iterInitParent/iterStepChild) equals the specification-level enumeration: correspondence-tested (both against C), not proved"]
+NOT_PROVED = ["centre coincidence in radians (float) is exercised by the evaluator only", "the loop-faithful iterator model (iterInitParent/iterStepChild) equals the specification-level enumeration: correspondence-tested (both against C), not proved"]
 EXPLANATION = ("hierarchy theorems about the model (error codes, child counts, centre child) + exact "
                "correspondence of children lists with the real iterator; evaluator compares the real library "
                "with an independent python enumeration of the digit tree")
